@@ -63,13 +63,13 @@ func conditional(c *fw.Ctx) {
 						p := filepath.Join(e.Root, target)
 						t0 := time.Unix(1500000000, 0)
 						os.Chtimes(p, t0, t0)
-						fi, _ := webdav.LocalFileSystem(e.Root).Stat(nil, target)
+						fi, _ := webdav.LocalFileSystem(e.Root).Stat(context.Background(), target)
 						if fi != nil {
 							stale = fmt.Sprintf("%q", fi.ETag)
 						}
 						t1 := time.Unix(1600000000, 0)
 						os.Chtimes(p, t1, t1)
-						fi, _ = webdav.LocalFileSystem(e.Root).Stat(nil, target)
+						fi, _ = webdav.LocalFileSystem(e.Root).Stat(context.Background(), target)
 						if fi != nil {
 							cur = fmt.Sprintf("%q", fi.ETag)
 						}
@@ -124,16 +124,33 @@ type faultReader struct {
 	err  error
 	// onFail runs when the fault point is reached (cancels the request context)
 	onFail func()
+	// goOn: the body is healthy; only onFail happens at the fault point and
+	// the remaining bytes are delivered up to EOF
+	goOn  bool
+	fired bool
 }
 
 func (f *faultReader) Read(p []byte) (int, error) {
-	if f.pos >= f.k {
+	if f.pos >= f.k && !f.fired {
+		f.fired = true
 		if f.onFail != nil {
 			f.onFail()
 		}
+		if !f.goOn {
+			return 0, f.err
+		}
+	}
+	if f.fired && !f.goOn {
 		return 0, f.err
 	}
-	n := copy(p, f.data[f.pos:f.k])
+	end := f.k
+	if f.fired {
+		end = len(f.data)
+	}
+	if f.pos >= end {
+		return 0, io.EOF
+	}
+	n := copy(p, f.data[f.pos:end])
 	f.pos += n
 	return n, nil
 }
@@ -190,7 +207,7 @@ func bodyFaults(c *fw.Ctx) {
 					continue
 				}
 				for _, k := range offsets {
-					for _, ek := range []string{"unexpected-eof", "other", "context-canceled"} {
+					for _, ek := range []string{"unexpected-eof", "other", "context-canceled", "context-canceled-body-healthy"} {
 						idx++
 						if !c.Mine(idx) {
 							continue
@@ -238,10 +255,22 @@ func execFault(c *fw.Ctx, e *fsx.Env, fc faultCase) {
 		defer cancel()
 		onFail = cancel
 	}
-	sreq.Body = &faultReader{data: data, k: fc.FailAt, err: ferr, onFail: onFail}
+	goOn := false
+	if fc.ErrKind == "context-canceled-body-healthy" {
+		// the request context is cancelled (at offset 0: before the handler
+		// reads anything) while the body itself stays readable to its end
+		ctx, cancel := context.WithCancel(sreq.Context())
+		sreq = sreq.WithContext(ctx)
+		defer cancel()
+		onFail, goOn = cancel, true
+		if fc.FailAt == 0 {
+			cancel()
+		}
+	}
+	sreq.Body = &faultReader{data: data, k: fc.FailAt, err: ferr, onFail: onFail, goOn: goOn}
 	sreq.ContentLength = int64(fc.Len)
 	if fc.Cond == "if-match-current" {
-		if fi, _ := webdav.LocalFileSystem(e.Root).Stat(nil, "/t"); fi != nil {
+		if fi, _ := webdav.LocalFileSystem(e.Root).Stat(context.Background(), "/t"); fi != nil {
 			sreq.Header.Set("If-Match", fmt.Sprintf("%q", fi.ETag))
 		}
 	}
@@ -276,8 +305,12 @@ func execFault(c *fw.Ctx, e *fsx.Env, fc faultCase) {
 		if fc.State != "absent" {
 			st = "file"
 		}
-		c.Report(fmt.Sprintf("PUT|target=%s|body-read-error|status=%d|tree-changed", st, resp.Code),
-			fmt.Sprintf("PUT whose body broke off after %d of %d bytes answered %d but the tree changed", fc.FailAt, fc.Len, resp.Code),
+		kind, what := "body-read-error", "whose body broke off"
+		if fc.ErrKind == "context-canceled-body-healthy" {
+			kind, what = "context-cancelled-body-healthy", "whose request context was cancelled (body readable to its end)"
+		}
+		c.Report(fmt.Sprintf("PUT|target=%s|%s|status=%d|tree-changed", st, kind, resp.Code),
+			fmt.Sprintf("PUT %s after %d of %d bytes answered %d but the tree changed", what, fc.FailAt, fc.Len, resp.Code),
 			map[string]interface{}{"case": fc, "before": pre, "after": post})
 	}
 }
